@@ -239,11 +239,12 @@ func mkMfra(e *elem, uniq uint32) []byte {
 
 // fragment with `tracks` tracks; per track a list of sample durations; returns moof and mdat bytes
 type fragSpec struct {
-	seq   uint32
-	durs  [][]uint32 // per track
-	base  []uint64   // per track decode time
-	cto0  int32      // composition time offset of the first sample of each track
-	trunk int        // >0: split the samples of track 1 into two truns after `trunk` samples (interleaved with track 2)
+	seq      uint32
+	durs     [][]uint32 // per track
+	base     []uint64   // per track decode time
+	cto0     int32      // composition time offset of the first sample of each track
+	optimize bool       // move common sample durations/sizes to tfhd defaults (traf.OptimizeTfhdTrun) before encoding
+	trunk    int        // >0: split the samples of track 1 into two truns after `trunk` samples (interleaved with track 2)
 }
 
 func mkFragment(fs fragSpec) (moof, mdat []byte, trafs []trafT) {
@@ -297,6 +298,13 @@ func mkFragment(fs fragSpec) (moof, mdat []byte, trafs []trafT) {
 	} else {
 		for t := 0; t < ntr; t++ {
 			add(t, 0, len(fs.durs[t]))
+		}
+	}
+	if fs.optimize {
+		for _, traf := range frag.Moof.Trafs {
+			if len(traf.Truns) > 0 && len(traf.Trun.Samples) > 0 {
+				_ = traf.OptimizeTfhdTrun()
+			}
 		}
 	}
 	var buf bytes.Buffer
@@ -596,6 +604,10 @@ func (g *gen) u() uint32 { g.uniq++; return g.uniq }
 func (g *gen) fragment(tracks int, base []uint64, seg, frag int, randomDur bool) (*elem, *elem) {
 	g.seq++
 	fs := fragSpec{seq: g.seq, base: append([]uint64(nil), base...)}
+	if g.r.Intn(3) == 0 { // constant durations, written as tfhd defaults
+		randomDur = false
+		fs.optimize = true
+	}
 	for t := 0; t < tracks; t++ {
 		n := 1 + g.r.Intn(3)
 		d := make([]uint32, n)
@@ -1163,6 +1175,9 @@ func main() {
 	n := fs.Int("n", 1000, "random cases")
 	exh := fs.Int("exh", 4, "exhaustive length")
 	dir := fs.String("dir", "", "directory")
+	hexFile := fs.String("file", "", "replay: the witness file in hex")
+	ism := fs.Bool("ism", false, "replay: DecISMFlag")
+	som := fs.Bool("som", false, "replay: DecStartOnMoof")
 	_ = fs.Parse(os.Args[2:])
 	defer out.Flush()
 	switch os.Args[1] {
@@ -1174,6 +1189,8 @@ func main() {
 		cmdEmit(*seed, *n, *dir)
 	case "verify":
 		cmdVerify(*dir)
+	case "replay":
+		cmdReplay(*hexFile, *ism, *som)
 	default:
 		fmt.Fprintln(os.Stderr, "unknown sub-command")
 		os.Exit(2)
